@@ -43,11 +43,10 @@ def register(R):
 
     s = R.spec(VEO + "report_dropoff_request")
     s.opaque = True
-    s.requires("has_passenger", lambda a: a.request.passengers.len() > 0)
     s.report("DROPOFF_REQUEST_EVENT", lambda a: {"vehicle_id": a.vehicle.id, "request_id": a.request.id,
                                                    "dropoff_time": a.sim.sim_time})
     s.report_props = ("C19", "C03")
-    s.no_raise(("C19",))
+    # raises IndexError for a request without passengers (excluded by Request.build's assert): not claimed no-raise
 
     # ------------------------------------------------------------ pick up / drop off (C03, C05)
     s = R.spec(SOPS + "pick_up_trip")
@@ -108,10 +107,8 @@ def register(R):
         rep = reports[0]
         return And(ok(r), rep.rtype == Sym(rt, rt.const("DROPOFF_REQUEST_EVENT")),
                    rep.fields["vehicle_id"] == a.vehicle_id, rep.fields["request_id"] == a.request.id)
-    s.requires("has_passenger", lambda a: a.request.passengers.len() > 0)
     s.ensures("reported_iff_committed", do_reports, ("C03", "C19"))
     s.files(lambda a, r: [(ok(r), "DROPOFF_REQUEST_EVENT", {"vehicle_id": a.vehicle_id, "request_id": a.request.id})])
-    s.no_raise(("C03",))
 
     # ------------------------------------------------------------ ServicingTrip.enter
     s = R.spec(key("ServicingTrip", "enter"))
@@ -139,6 +136,7 @@ def register(R):
     for g, props in (("resources", ("C02", "C03", "C09")), ("location", ("C07",)), ("access", ("C10",))):
         s.ensures(f"enter_{g}", (lambda g: lambda a, r: Implies(ok(r), st_parts(a, r)[g]))(g), props)
     s.ensures("wf_kept", WF_KEPT, ("C08",))
+    s.ensures("shape", SHAPE, ("C09",))
     s.no_raise(("C02",))
 
     # ------------------------------------------------------------ pooling states: assumed contracts
@@ -148,6 +146,7 @@ def register(R):
         s.opaque = True
         s.assume_only("pooling state exit: body out of reach (zip(*plan), reduce over symbolic plan)")
         s.requires("wf", WF_PRE)
+        s.ensures("shape", SHAPE)
         s.ensures("frame", lambda a, r: Implies(ok(r), And(
             same_except(r[1].val(), a.sim, ["requests"]), wf(r[1].val()))))
         s = R.spec(key(cname, "enter"))
@@ -166,6 +165,7 @@ def register(R):
                 s2.vehicles == a.sim.vehicles.set(vid, s2.vehicles.get(vid).val()),
                 same_except(s2, a.sim, ["vehicles", "requests", "r_locations", "r_search"]), wf(s2)))
         s.ensures("frame", pool_enter)
+        s.ensures("shape", SHAPE)
 
     R.virtual("VehicleState", "exit")
     R.virtual("VehicleState", "enter")
